@@ -18,7 +18,7 @@ INVS = {
     "C02": ["C02_Run"],
     "C04": ["C04_Run"],
     "C05": ["C05_Agree"],
-    "C06": ["C06_Class", "C06_FirstBad", "C06_NoFalseAccept"],
+    "C06": ["C06_Run"],
     "C07": ["C07_Value", "C01_Run"],
     "C08": ["C08_Agree"],
 }
@@ -36,7 +36,7 @@ def population(ctx, flavour):
     # general mix
     return (["-corpus", conf.CORPUS, "-nrand", 24 if q else 220, "-nexpr", 6 if q else 60, "-ndp", 4 if q else 40,
              "-nctx", 8 if q else 80, "-small-max", 3, "-small-slices", 400 if q else 40, "-small-slice", s % (400 if q else 40),
-             "-nbig", 1 if q else 5, "-valued", 60],
+             "-nbig", (1 if q else 5) if ctx.prop in ("C01", "C02", "C06") else 0, "-valued", 60],
             ["-limit", 100 if q else 400, "-nrandom", 24 if q else 100])
 
 
